@@ -100,12 +100,17 @@ def resolve(p):
     receiver's MTU, or above the frame budget)."""
     out = []
     total_frames = 0
+    basic = p['spec'][0]['mode'] == 'B' and p['spec'][1]['mode'] == 'B'
+    fcs = p['spec'][0]['fcs'] or p['spec'][1]['fcs']
     for d in (0, 1):
         rx = p['spec'][1 - d]
         sizes = []
         for sym in p['sdus'][d]:
             n = sym_size(sym, rx)
             if n > rx['mtu'] or n < 0:
+                return None
+            if basic and fcs and n > 65535 - 2:
+                # a B-frame that also carries a 2-octet FCS cannot hold it: the Length field is 16 bits
                 return None
             if p['echo'] and d == 0 and n > p['spec'][0]['mtu']:
                 return None
@@ -707,6 +712,20 @@ def run(ctx: core.Context) -> int:
         for r in core.pmap(w_timer, [(p, seed) for p in tc], ctx.jobs):
             ctx.sub('timer').merge(r)
         ctx.log('timer:', ctx.sub('timer').summary())
+        if not quick:
+            # time-out at message k combined with one order-preserving delay anywhere in the data phase
+            st = ctx.sub('timer_sched')
+            for ci in (0, 3):
+                p = dict(TIMER_CASES[ci], seed=seed)
+                n = run_case(p)['info'].get('msgs', 0)
+                for k in range(0, n + 1):
+                    explore.explore(
+                        run_explore, dict(p, jump=[k, RTO + 0.001], explore='data'), 1, ctx.jobs, st, max_runs=2000, label=f't{ci}k{k}:'
+                    )
+            bounds = [st.counters.pop(k) for k in list(st.counters) if k.endswith(':completed_bound') and k.startswith('t')]
+            st.counters['jump_indices_explored'] = len(bounds)
+            st.counters['min_completed_bound'] = min(bounds) if bounds else 0
+            ctx.log('timer_sched:', st.summary())
     return core.finish(
         ctx,
         LEVEL,
@@ -717,13 +736,15 @@ def run(ctx: core.Context) -> int:
             'size sequences over {1, mps-1, mps, mps+1, 3mps, 65mps+1, mtu, 0} (resolved against the receiver) x {one way, both '
             'ways, echo sink, reverse only}; Basic likewise over {1, 0, 47, 48, mtu-1, mtu}; distinct = the case parameters. '
             'sched: 5 data cases x all delays with <= d deviations, distinct = (prefix, choice fingerprints). timer: 7 ERTM cases x '
-            'clock jump past the retransmission time-out before every message index.'
+            'clock jump past the retransmission time-out before every message index (thorough: 2 of them additionally x all delays '
+            'with <= 1 deviation for every jump index).'
         ),
         assumptions=[
             'both ends are bumble; a peer that polls (P=1) or rejects (REJ/SREJ) is never produced by bumble and so never met',
             'the link loses nothing, so retransmission proper is not exercised: only delays (including delays longer than the timers)',
             'SDUs are at most the MTU the receiver advertised; cases above a frame budget (400, 12000 for the 65535-octet cases) are outside the space',
             'FCS is taken to be in use when either Configure Request carries FCS=1 (bumble never sends FCS=0)',
+            'Basic mode with FCS requested (not a configuration the specification defines): SDUs are limited to 65533 octets so that the B-frame Length field can hold SDU + FCS',
         ],
     )
 
